@@ -121,7 +121,9 @@ def run_core(ctx, opts=("d",), force=False):
     ctx.rng = random.Random(ctx.seed * 7919 + 17)
     grammars = corpus_grammars() + gen_grammars(ctx, ngram)
     allopts = ["d", "i", "s", "is", "n", "ni", "ns", "nis"]
-    bt = B.Batch(bd, "core", grammars, allopts).generate().build()
+    bt = B.Batch(bd, "core", grammars, allopts)
+    bt.want_vet = True
+    bt.generate().build()
     model = B.Model()
     data = {"opts": allopts, "grammars": {}, "cases": [], "stats": {}}
     mlines, ireqs = [], []
@@ -134,7 +136,7 @@ def run_core(ctx, opts=("d",), force=False):
         for o in allopts:
             it = bt.items[(gid, o)]
             r = it["resp"]
-            oi = {"generated": it["generated"], "compiles": it.get("compiles", False),
+            oi = {"generated": it["generated"], "compiles": it.get("compiles", False), "gofmt_clean": it.get("gofmt_clean"), "vet_error": it.get("vet_error"),
                   "panic": r.get("panic"), "compile_err": r.get("compile_err"), "parse_err": r.get("parse_err"),
                   "build_error": it.get("build_error")}
             if o == "d":
